@@ -79,3 +79,18 @@ impl WeakCounterMarker {
         }
     }
 }
+
+#[cfg(rust_cc_verif)]
+impl WeakCounterMarker {
+    #[inline]
+    pub(crate) fn verif_word(&self) -> u16 {
+        self.weak_counter.get()
+    }
+
+    #[inline]
+    pub(crate) fn verif_from_word(word: u16) -> WeakCounterMarker {
+        WeakCounterMarker {
+            weak_counter: Cell::new(word),
+        }
+    }
+}
